@@ -11,11 +11,14 @@ compile/ast/folder.go. Every theorem is about these definitions, which the drive
 
 The property is FALSE of the current code as a whole-program statement (DESIGN §6 findings 8, 23
 and two further classes found here): the `…_counter` theorems are decided witnesses on the mirror,
-the `…_sound` theorems are the per-rule statements that do hold. Exception *identity* (which
+the `…_sound` theorems are the per-rule statements that do hold (n-ary: `+`/`-`, `*` without
+reciprocals, `|`, `^`, `$`; missing: `&`, `and`/`or`, reciprocal operands of `*`, flattening of
+nested parenthesised operands of `+ | ^`). Exception *identity* (which
 message) is not modelled (`none` is any exception); of PropFold (final locals) only the substitution step is modelled
 (`propfold_subst_sound_partial`) — both are otherwise covered by the metamorphic direct oracle.
 -/
 import Gsu.Proofs.LangFold
+import Gsu.Proofs.LangFold2
 import Gsu.Proofs.LangProp
 import Gsu.Gen.Folder
 import Gsu.Model.Dnum
@@ -60,8 +63,10 @@ the addition is associative, commutative and has 0 as identity (`LawfulAdd`: tru
 integers, see `exact_add_lawful`; false of the 16-digit decimal, see
 `fold_nary_reassoc_counter`).
 PARTIAL w.r.t. the full statement "for every n-ary operator": the flattening of a parenthesised
-nested `+` (hypothesis `hnn`) and the operators `* | & ^ and or $` are not covered; for
-`* | & and or` the statement is false, see the counter theorems below. -/
+nested `+` (hypothesis `hnn`) is not covered. The other operators have their own theorems below:
+`*` without reciprocals (`fold_nary_mul_sound_partial`), `|` `^` (`fold_nary_bit_sound_partial`),
+`$` (`fold_cat_sound`); `&` and `and`/`or` have no soundness theorem (only the counter theorems:
+for `* | & and or` the unconditional statement is false). -/
 theorem fold_nary_add_sound_partial (A : Arith) (h : LawfulAdd A) (env : List Val)
     (es : List Expr) (e' : Expr) (h2 : 2 ≤ es.length)
     (hnn : ∀ e ∈ es, nestedNary .add e = none)
@@ -74,6 +79,71 @@ theorem exact_add_lawful : LawfulAdd exactA := exactA_lawful
 example : fNary exactA .add [.var 0, .const (.int 1), .var 1, .const (.int 2)] =
     .ok (.nary .add [.var 0, .const (.int 3), .var 1]) := rfl
 example : ∀ e ∈ [Expr.var 0, .const (.int 1), .var 1, .const (.int 2)], nestedNary .add e = none := by
+  decide
+
+/-- N-ary `*` (`foldMul`) without reciprocal operands: multiplying the constant factors together,
+moving the product to the end, dropping a product of 1, the `x * 1` fix-up and the constant-zero
+short cut preserve the run-time result in every environment — for every multiplication that is
+associative, commutative, has identity 1 and absorbing 0 (`LawfulMul`, true of exact integers:
+`exact_mul_lawful`), provided that
+  * `hr`: no operand is a reciprocal `/ e` or a unary operator applied to a constant (`noRecip`;
+    with reciprocals the statement is false for the decimal division, `fold_muldiv_reassoc_counter`),
+  * `hz`: when a constant `0` is among the operands, every operand evaluates to a number
+    (needed: `fold_absorb_nonnumber_counter`).
+PARTIAL: reciprocal operands (`a / b`) are not covered. Nested `*` needs no hypothesis (foldMul
+does not flatten). -/
+theorem fold_nary_mul_sound_partial (A : Arith) (h : LawfulMul A) (env : List Val)
+    (es : List Expr) (e' : Expr) (h2 : 2 ≤ es.length)
+    (hr : ∀ e ∈ es, noRecip e = true)
+    (hz : Expr.const (.int 0) ∈ es → ∀ e ∈ es, ∃ n, numOf A env e = some n)
+    (hf : fNary A .mul es = .ok e') : eval A env e' = eval A env (.nary .mul es) :=
+  fNary_mul_sound h env es e' h2 hr hz hf
+
+theorem exact_mul_lawful : LawfulMul exactA := exactA_lawfulMul
+
+-- non-vacuity: `2 * x * 3 * y` meets the hypotheses and is rewritten to `x * y * 6`
+example : fNary exactA .mul [.const (.int 2), .var 0, .const (.int 3), .var 1] =
+    .ok (.nary .mul [.var 0, .var 1, .const (.int 6)]) := rfl
+example : ∀ e ∈ [Expr.const (.int 2), .var 0, .const (.int 3), .var 1], noRecip e = true := by
+  decide
+
+/-- N-ary `|` and `^` (`commutative` with the 64-bit run-time operators of `nop`): merging the
+constants, dropping zeros and the one-operand fix-ups preserve the run-time result in every
+environment, provided the constant `0xffffffff` — which the folder takes for the absorbing element
+of `|` although the run-time operators are 64 bits wide (KF-C30-5) — is not an operand (`h32`;
+needed for `|`: `fold_bitor_32bit_counter`; for `^` it only excludes that one constant).
+PARTIAL: `&` is not covered (its fold identity `0xffffffff` is not an identity of the 64-bit `&`,
+see `fold_bitand_32bit_counter` and `fold_bitand_const_counter`), nor the flattening of a
+parenthesised nested operand (`hnn`). -/
+theorem fold_nary_bit_sound_partial (A : Arith) (op : NOp) (hop : op = .bitor ∨ op = .bitxor)
+    (env : List Val) (es : List Expr) (e' : Expr) (h2 : 2 ≤ es.length)
+    (hnn : ∀ e ∈ es, nestedNary op e = none)
+    (h32 : Expr.const (.int allones) ∉ es)
+    (hf : fNary A op es = .ok e') : eval A env e' = eval A env (.nary op es) :=
+  fNary_bit_sound A op hop env es e' h2 hnn h32 hf
+
+-- non-vacuity: `x | 1 | y | 6` is rewritten to `x | 7 | y`
+example : fNary exactA .bitor [.var 0, .const (.int 1), .var 1, .const (.int 6)] =
+    .ok (.nary .bitor [.var 0, .const (.int 7), .var 1]) := rfl
+
+/-- N-ary `$` (`foldCat`): concatenating adjacent constant operands at compile time (and
+replacing an all-constant list by the one string) leaves the run-time result — value or exception —
+unchanged in every environment. Full for the model: no hypothesis beyond the two operands every
+parsed `$` list has. -/
+theorem fold_cat_sound (A : Arith) (env : List Val) (es : List Expr) (e' : Expr)
+    (h2 : 2 ≤ es.length) (hf : fNary A .cat es = .ok e') :
+    eval A env e' = eval A env (.nary .cat es) :=
+  fNary_cat_sound A env es e' h2 hf
+
+-- non-vacuity: `x $ "a" $ "b" $ y` is rewritten to `x $ "ab" $ y`
+example : fNary exactA .cat [.var 0, .const (.str [97]), .const (.str [98]), .var 1] =
+    .ok (.nary .cat [.var 0, .const (.str [97, 98]), .var 1]) := rfl
+
+/-- KF-C30-5, all-constant variant: the one-operand fix-up applies the operator to the fold
+identity `0xffffffff`: `0x100000000 & 0x100000000` is `0x100000000` at run time and `0` folded. -/
+theorem fold_bitand_const_counter :
+    let e := Expr.nary .bitand [.const (.int 4294967296), .const (.int 4294967296)]
+    eval exactA [] e = some (.int 4294967296) ∧ evalFolded exactA [] e = some (.int 0) := by
   decide
 
 /-- Finding 8 (decimal re-association): with the 16-digit decimal addition (`dec16`, values in
